@@ -451,7 +451,11 @@ func (h *hist) someStores(r *lib.Rng) {
 	if !h.lastOK {
 		return
 	}
-	for k := lib.Pick(r, 0, 0, 1, 1, 2, 8); k > 0; k-- {
+	k := lib.Pick(r, 0, 0, 1, 1, 2, 8, 9+r.Intn(12))
+	if k > 8 { // more StoreCookie calls in a row than the pool may hold (ntske.MaxStoredCookies)
+		h.tags["storecap"] = true
+	}
+	for ; k > 0; k-- {
 		h.store(genCookie(r))
 		h.tags["store"] = true
 	}
@@ -651,6 +655,10 @@ func genAll(r *lib.Rng, n int, thorough bool) {
 	case "starget":
 		genSTargets(r, 40)
 		return
+	case "bodylen":
+		genBodyLen(r, func() *hist { return newHist(r) })
+		quicLast = genQUIC(r, 0)
+		return
 	case "overlap":
 		genOverlaps(r, 30)
 		return
@@ -669,6 +677,7 @@ func genAll(r *lib.Rng, n int, thorough bool) {
 	genTargets(r, nt)
 	genSTargets(r, nt)
 	genOverlaps(r, 3*no)
+	genBodyLen(r, func() *hist { return newHist(r) })
 	if os.Getenv("C20_QUIC") != "0" { // on by default since the defect (D-C20b) is repaired in /repo
 		nq := 150
 		if thorough {
